@@ -36,7 +36,7 @@ N_RANDOM = {"quick": 60000, "thorough": 3000000}
 
 VALUES = [0, 1, 2, ["f", "1.0"], True, False, "1", "a", None, ["T", 1, 2], ["T", ["f", "1.0"], 2], ["f", "0.0"],
           ["f", "-0.0"]]
-KWNAMES = ["x", "y"]
+KWNAMES = ["x", "y", "self", "key", "args", "typed"]  # incl. names the cache objects use for their own parameters
 
 
 def rand_pattern(rng, small=False):
@@ -124,7 +124,7 @@ class LRUModel:
     def key(self, args, kwargs):
         return functools._make_key(args, kwargs, self.typed)
 
-    def __call__(self, *args, **kwargs):
+    def __call__(self, /, *args, **kwargs):
         if self.maxsize == 0:
             self.misses += 1
             return self.fn(*args, **kwargs)
@@ -151,7 +151,7 @@ class LRUModel:
         self.d.clear()
         self.hits = self.misses = 0
 
-    def cache_discard(self, *args, **kwargs):
+    def cache_discard(self, /, *args, **kwargs):
         if self.maxsize != 0:
             self.d.pop(self.key(args, kwargs), None)
 
